@@ -238,6 +238,17 @@ const PLANTS: &[(&str, &str)] = &[
     ("unicode_class", "\\p{sc=Greek}"),
     ("unicode_class", "\\p{Script:Latin}"),
     ("unicode_class", "\\P{gc!=L}"),
+    // known to Unicode and to regex-syntax, but not to the crate's table of classes (general
+    // categories and scripts written in braces): "unknown" in the sense of the statement
+    ("unicode_class", "\\p{L}"),
+    ("unicode_class", "\\P{N}"),
+    ("unicode_class", "\\p{P}"),
+    ("unicode_class", "\\p{Lu}"),
+    ("unicode_class", "\\p{Nd}"),
+    ("unicode_class", "\\p{Greek}"),
+    ("unicode_class", "\\P{Latin}"),
+    ("unicode_class", "\\p{Han}"),
+    ("unicode_class", "[_\\p{Lu}]"),
     ("unicode_class", "[a\\p{NoSuchProperty}]"),
     ("unicode_class", "[^\\p{sc=Greek}b]"),
     ("unicode_class", "[a-c&&\\pX]"),
@@ -254,7 +265,7 @@ const PLANTS: &[(&str, &str)] = &[
     ("syntax_error", "\\y"),
 ];
 
-const NONSENSE_UNICODE: &[&str] = &["NoSuchProperty", "Xyzzy"];
+const NONSENSE_UNICODE: &[&str] = &["NoSuchProperty", "Xyzzy", "L", "N", "P", "Lu", "Nd", "Greek", "Latin", "Han"];
 
 /// Does the parsed pattern contain a construct documented as unsupported?
 fn ast_has_unsupported(a: &ast::Ast) -> bool {
